@@ -54,8 +54,11 @@ def hist_of(case):
     return [x for x in d.get("hist", "").split("|") if x], d
 
 
+ROUNDS = 3
+
+
 def gen_history(rng, ndev=2, nops=10, with_folders=False, with_clock=True, conflicts=True, extra_ops=()):
-    """edits on several devices, online and offline, then two quiescent rounds of syncs"""
+    """edits on several devices, online and offline, then ROUNDS quiescent rounds of syncs (each device once per round, random order)"""
     ops = ["s0"] + ["s%d" % d for d in range(1, ndev)]
     slots = ["a", "b", "c", "d"]
     fslots = ["0"]
@@ -86,7 +89,7 @@ def gen_history(rng, ndev=2, nops=10, with_folders=False, with_clock=True, confl
             ops.append(rng.choice(extra_ops) % {"d": d, "f": rng.choice(fslots), "s": rng.choice(slots)})
         else:
             ops.append("p%d:%s" % (d, rng.choice(fslots)))
-    for _ in range(2):
+    for _ in range(ROUNDS):
         order = list(range(ndev)); rng.shuffle(order)
         ops += ["s%d" % d for d in order]
     return ops
